@@ -547,19 +547,39 @@ def judge_history(ctx, case, out, units, replies):
         ctx.case([unit["snap"], unit["minimize"]], nontrivial, sample)
 
 
-def run_cases(ctx, cases):
-    outs = run_pool(impl, cases, timeout=120.0)
+def _run_impl(ctx, cases):
+    """the histories of one chunk through the worker pool; a timeout is re-run once alone (DESIGN §2.4) before it
+    counts.  Returns (outcomes, confirmed timeouts)."""
+    outs = run_pool(impl, cases, timeout=20.0)
+    slow = [i for i, o in enumerate(outs) if o[0] == "timeout"]
+    confirmed = 0
+    if slow:
+        again = slow[:8]
+        redo = run_pool(impl, [cases[i] for i in again], timeout=60.0, procs=len(again))
+        for i, o in zip(again, redo):
+            outs[i] = o
+            if o[0] == "timeout":
+                confirmed += 1
+            else:
+                ctx.count("timeouts_not_reproduced")
+        for i in slow[8:]:
+            ctx.count("timeouts_not_rerun")
+            outs[i] = None
+    return outs, confirmed
+
+
+def _judge_chunk(ctx, cases, outs):
+    keep = [(c, o) for c, o in zip(cases, outs) if o is not None]
     reqs, spans = [], []
-    for o in outs:
+    for _, o in keep:
         units = o[1] if o[0] == "ok" else []
-        good = [u for u in units if u.get("snap") is not None]
         spans.append((len(reqs), units))
-        reqs += [to_request(u) for u in good]
+        reqs += [to_request(u) for u in units if u.get("snap") is not None]
     replies = Driver("Assign").run(reqs, chunks=8)
     for rp in replies:
         if rp and rp[0] == "error":
             raise core.Infra(f"model rejected request: {rp}")
-    for c, o, (start, units) in zip(cases, outs, spans):
+    for (c, o), (start, units) in zip(keep, spans):
         reps, k = [], start
         for u in units:
             if u.get("snap") is None:
@@ -568,9 +588,29 @@ def run_cases(ctx, cases):
                 reps.append(replies[k])
                 k += 1
         judge_history(ctx, c, o, units, reps)
+
+
+def run_cases(ctx, cases, first_chunk=None):
+    """chunked so that an implementation that stops returning is reported after the first (small) chunk instead
+    of spending the whole budget on timeouts"""
+    sizes = ([first_chunk] if first_chunk else []) + [4000] * (len(cases) // 4000 + 1)
+    pos = confirmed = 0
+    for size in sizes:
+        chunk = cases[pos:pos + size]
+        pos += size
+        if not chunk:
+            break
+        outs, conf = _run_impl(ctx, chunk)
+        confirmed += conf
+        _judge_chunk(ctx, chunk, outs)
+        if confirmed >= 4 and pos < len(cases):
+            ctx.notes.append(f"stopped after {pos} of {len(cases)} histories: {confirmed} calls did not return "
+                             "within 20 s and again not within 60 s when re-run alone")
+            break
     h = ctx.cov["histogram"]
     for k in ("cert_checked_model", "cert_checked_impl", "r_prop_agree", "r_trace_agree", "excluded_region_hits"):
         ctx.cov[k] = h.get(k, 0)
+    ctx.cov["timeouts"] = h.get("known_finding:solve_hungarian:raises:Timeout", 0) + confirmed
 
 
 def _as_history(case):
@@ -590,10 +630,11 @@ def run(ctx, budget):
     if note not in ctx.notes:
         ctx.notes.append(note)
     cases = list(edge_histories()) + [_as_history(c["case"]) for c in core.load_corpus("C10")]
+    smoke = len(cases)
     n = 2500 * budget
     cases += [gen_history(ctx.rng, big=(ctx.tier == "thorough" and i % 3 == 0)) for i in range(n)]
     cases += [gen_history(ctx.rng, big=False, large=True) for _ in range(24 * budget)]   # fixed share: 15..30 per side
-    run_cases(ctx, cases)
+    run_cases(ctx, cases, first_chunk=smoke)
 
 
 def replay(ctx, body):
